@@ -222,7 +222,14 @@ pub open spec fn translation_of(p: Seq<char>, src: Seq<char>, ctx: Context, anno
 pub open spec fn all_translated(py: Seq<String>, source: Seq<File>, ctx: Context, annotate: bool) -> bool {
     py.len() == source.len() && forall|i: int| 0 <= i < source.len() ==> translation_of((#[trigger] py[i])@, source[i].0@, ctx, annotate)
 }
-pub open spec fn translated_in_order(py: Seq<String>, source: Seq<File>, annotate: bool) -> bool { exists|ctx: Context| #[trigger] all_translated(py, source, ctx, annotate) }
+/// the trees of all files, in input order
+pub open spec fn asts_of(source: Seq<File>) -> Seq<AST> {
+    Seq::new(source.len(), |i: int| match parse_of(source[i].0@) { Ok(a) => a, Err(_) => arbitrary() })
+}
+/// ... and that common context is the ONE context built from the trees of ALL files (definitions of every file are visible in every other)
+pub open spec fn translated_in_order(py: Seq<String>, source: Seq<File>, annotate: bool) -> bool {
+    exists|ctx: Context| #[trigger] all_translated(py, source, ctx, annotate) && ctx_of(asts_of(source)) == Ok::<Context, Vec<TypeErr>>(ctx)
+}
 // closure postconditions, named
 pub open spec fn parse_post(f: File, r: Result<AST, ParseErr>) -> bool {
     match r { Ok(a) => parse_of(f.0@) == Ok::<AST, Box<ParseErr>>(a), Err(e) => names_file(e.source, e.path, f) && (parse_of(f.0@) matches Err(b) && parse_err_of(*b, e)) }
@@ -262,7 +269,7 @@ impl GenArguments {
 //@@ END
 }
 
-//@@ FN src/lib.rs | free | mamba_to_python | props=C19,C01,C11,C03
+//@@ FN src/lib.rs | free | mamba_to_python | props=C19,C01,C11,C13,C03
 //@@ REPLACE pin=143830d79765
 //@@< let strip_prefix = |p: PathBuf| { $$ };
 //@@> let ghost source0 = source@;
@@ -302,7 +309,7 @@ impl GenArguments {
 //@@> verif_unwrap_oks(asts)
 //@@ HINT after
 //@@< let asts: Vec<AST> = $$;
-//@@> proof { assert(all_ok(m1)); assert forall|i: int| 0 <= i < source@.len() implies parse_of(source@[i].0@) == Ok::<AST, Box<ParseErr>>(#[trigger] asts@[i]) by { assert(parse_post(source@[i], m1[i])); } }
+//@@> proof { assert(all_ok(m1)); assert forall|i: int| 0 <= i < source@.len() implies parse_of(source@[i].0@) == Ok::<AST, Box<ParseErr>>(#[trigger] asts@[i]) by { assert(parse_post(source@[i], m1[i])); } assert(asts@ =~= asts_of(source0)); }
 // -- stage 2: context -------------------------------------------------------------------------------------------------------------
 //@@ REPLACE deep
 //@@< Context::try_from(asts.as_ref()).map_err(|errs| { $$ })?
@@ -354,7 +361,7 @@ impl GenArguments {
     ensures
         r matches Err(msgs) ==> msgs@.len() >= 1,                                //# every_rejection_carries_a_diagnostic [C19]
         r matches Err(msgs) ==> forall|k: int| 0 <= k < msgs@.len() ==> belongs_somewhere(#[trigger] msgs@[k]@, source@, *source_dir, pipeline_args.annotate),   //# each_diagnostic_names_the_file_it_belongs_to [C19]
-        r matches Ok(py) ==> translated_in_order(py@, source@, pipeline_args.annotate),   //# output_i_is_the_translation_of_input_i_with_the_callers_flag [C01,C11]
+        r matches Ok(py) ==> translated_in_order(py@, source@, pipeline_args.annotate),   //# output_i_is_the_translation_of_input_i_in_the_context_of_all_files_with_the_callers_flag [C01,C11,C13]
 //@@ END
 
 } // verus!
